@@ -95,6 +95,24 @@ Theorem T17_lists_used_as_read : wiring = WiringExpected.wiring_expected.
 Proof. exact ob_wiring. Qed.
 Print Assumptions T17_lists_used_as_read.
 
+(* The three sites that use a list (deny-domains, direct-domains, mitm-domains): a site says yes for a target host exactly
+   when, for one of the forms of the name the reference lets it consult (as written; at the deny and direct site also
+   without the trailing dot), some include entry matches that form on its own and no exclude entry does — for every
+   site, every list with an include entry, every host. *)
+Theorem T17_site_verdict : forall st l h,
+  l <> [] -> existsb (fun e => negb (fst e)) l = true -> forallb (fun e => compiles (snd e)) l = true ->
+  site_verdict st l h = Some (existsb (entries_reference l) (ref_forms st h)).
+Proof. exact (site_verdict_spec T17_union_minus_excludes ob_site_forms). Qed.
+Print Assumptions T17_site_verdict.
+
+(* deny-domains and direct-domains together: a plain request is refused when the deny list says yes, else dialled
+   directly when the direct list says yes, else sent to the upstream proxy; each list is judged on its own, whatever
+   the other list contains (an absent list says no). *)
+Theorem T17_route : forall deny direct h, configured deny -> configured direct ->
+  route deny direct h = Some (route_code (list_says SiteDeny deny h) (list_says SiteDirect direct h)).
+Proof. exact (route_spec T17_union_minus_excludes ob_site_forms). Qed.
+Print Assumptions T17_route.
+
 (* ---- the two joined shapes (kept: they are what a revert would bring back) ---- *)
 
 (* Joining the bare texts is refuted: an inline flag of one rule reaches the next,
@@ -137,6 +155,15 @@ Print Assumptions T17_wrapped_join_refuted.
 
 (* Non-vacuity: a concrete list with flags, anchors, alternation, a group, a class
    and an exclusion meets the hypotheses, and the answers are the expected ones. *)
+Example T17_sites_example :
+  let deny := [(false, [Bol; Lit 49; Lit 50; Lit 55; Lit 46]); (true, [Lit 46; Lit 50; Eol])] in     (* ^127\.  -\.2$ *)
+  let direct := [(false, L "localhost")] in
+  configured deny /\ configured direct /\
+  route deny direct (b "127.0.0.1") = Some 0 /\ route deny direct (b "127.0.0.2") = Some 2 /\
+  route deny direct (b "localhost.") = Some 1 /\ site_verdict SiteMitm direct (b "localhost.") = Some true.
+Proof. exact (conj (or_intror (conj eq_refl eq_refl)) (conj (or_intror (conj eq_refl eq_refl))
+  (conj eq_refl (conj eq_refl (conj eq_refl eq_refl))))). Qed.
+
 Example T17_example :
   let inc := [w_ifoo; [Bol; Group Cap (L "a" ++ Bar :: L "b"); Rep Plus (Class false [(48, 57)]); Eol]] in
   let exc := [L "foobar"; w_qfoo] in
